@@ -29,6 +29,8 @@ EVENT_CLAUSES = {   # clauses that belong to C15 only on these events
 
 C15_EVENTS = ('Sample', 'SetSeed', 'GlobalSeed', 'GlobalDraw', 'Dataset', 'Reset')
 
+ECHO_SOURCES = ('lifecycle-state-differs', 'expected-error-but-call-returned', 'unexpected-exception')
+
 
 def relevant(clause, shape):
     # C15 speaks about sampling calls, seeding and the dataset generators; what a fit does to the
